@@ -9,6 +9,15 @@ Model (`HapVerif.C19`, file `Model/C19.lean`): `lineToSlice` (`utils.LineToSlice
 global ConfigMap value with a nil source).  Strings are arbitrary byte lists, keyword lists
 and annotation lists are arbitrary lists: every theorem below quantifies over all of them.
 
+One SYNC (`Backend`, `Updater`, `runSync`, `sync`, `reorder`): several backends, each with
+its ordered annotation sources `(type, namespace, name)`, updated by ONE updater in an
+arbitrary order.  What an updater carries from one backend to the next is a parameter
+(`Updater σ`): `pureUpdater` is the code as it is, `memoUpdater key` memoises the verdict of
+the keyword scan under `key source` (the seeded change C19e is `memoUpdater keyFullName`).
+`sync_order_independent`, `sync_perm`, `no_leak_sync`, `oracle_sync_partial` lift the
+single-backend theorems to every backend of every sync; `memo_sound` / `seeded_memo_leaks`
+say when such a memo is harmless and that `Source.FullName()` is not.
+
 The model is tied to the Go code by the correspondence run (`harness/cmd/hv/c19.go`), the
 constants (table, loop conditions, split/trim separators) by `facts_c19`.
 -/
@@ -417,10 +426,273 @@ example : oracle [star] [("s", [120])] [] [[120]] = some "star-leaked" := by dec
 example : oracle [[107]] [("s", [120])] [] [] = some "clean-snippet-dropped" := by decide
 example : oracle [[107]] [("s", [120, 10, 107])] [] [[120]] = some "dirty-snippet-not-dropped-as-a-whole" := by decide
 
+/-! ## one sync: several backends, one updater, arbitrary processing order -/
+
+/-- the pair `(source, value)` handed to `buildBackendCustomConfig` is what `Mapper.Get` returns -/
+theorem selCfg_eq (b : Backend) (glob : Str) :
+    (⟨b.selSrc.map Src.label, b.selValue glob⟩ : Cfg) = mapperGet b.lanns glob := by
+  obtain ⟨id, anns⟩ := b
+  cases anns with
+  | nil => rfl
+  | cons a rest => rfl
+
+/-- **runSync_stateless**: for ANY updater whose outcome does not depend on what it carries
+from one backend to the next, a sync — whatever its state, length, order — gives every
+backend the outcome of the single-backend model. -/
+theorem runSync_stateless {σ : Type} (u : Updater σ) (kws : List Str) (glob : Str)
+    (h : ∀ s src v, (u.build kws s src v).1 = customConfig kws ⟨src.map Src.label, v⟩) :
+    ∀ (s : σ) (bs : List Backend),
+      runSync u kws glob s bs = bs.map fun b => (b, run kws b.lanns glob) := by
+  intro s bs
+  induction bs generalizing s with
+  | nil => rfl
+  | cons b bs ih =>
+    simp only [runSync, List.map_cons]
+    rw [ih, h, selCfg_eq]
+    rfl
+
+theorem sync_pure (kws : List Str) (glob : Str) (bs : List Backend) :
+    sync pureUpdater kws glob bs = bs.map fun b => (b, run kws b.lanns glob) :=
+  runSync_stateless pureUpdater kws glob (fun _ _ _ => rfl) () bs
+
+/-- **sync_order_independent**: for the code as it is, whatever the processing order `ord`
+(any list of positions: a permutation, with repetitions, partial) and whatever the other
+backends of the sync declare, each processed backend gets exactly the outcome of the
+single-backend model — so `blocked`, `star_blocks`, `untouched`, `multiline_no_bypass`,
+`merge_first_wins`, `property_annotation_partial` apply to every backend of a sync. -/
+theorem sync_order_independent (kws : List Str) (glob : Str) (bs : List Backend) (ord : List Nat) :
+    sync pureUpdater kws glob (reorder bs ord) =
+      (reorder bs ord).map fun b => (b, run kws b.lanns glob) :=
+  sync_pure kws glob _
+
+/-- the same with permutations: two processing orders of the same backends give the same
+outcomes up to that permutation, and every backend of the sync is in the result with its
+single-backend outcome -/
+theorem sync_perm (kws : List Str) (glob : Str) (bs bs' : List Backend) (h : bs'.Perm bs) :
+    (sync pureUpdater kws glob bs').Perm (sync pureUpdater kws glob bs) ∧
+    ∀ b ∈ bs, (b, run kws b.lanns glob) ∈ sync pureUpdater kws glob bs' := by
+  rw [sync_pure, sync_pure]
+  refine ⟨h.map _, ?_⟩
+  intro b hb
+  exact List.mem_map.2 ⟨b, h.mem_iff.2 hb, rfl⟩
+
+/-- the outcome of a backend does not depend on the backends around it -/
+theorem sync_backend_outcome (kws : List Str) (glob : Str) (bs : List Backend) (b : Backend) (o : Outcome)
+    (h : (b, o) ∈ sync pureUpdater kws glob bs) : o = run kws b.lanns glob := by
+  rw [sync_pure] at h
+  obtain ⟨b', _, e⟩ := List.mem_map.1 h
+  cases e
+  rfl
+
+/-- **no_leak_sync**: no disabled keyword reaches ANY backend of a sync through annotations:
+for every backend, in every processing order, nothing is emitted under `*`, no emitted line
+starts with a non-empty disabled keyword, and when the backend has an annotation value the
+whole Spec holds. -/
+theorem no_leak_sync (kws : List Str) (glob : Str) (bs : List Backend) (ord : List Nat)
+    (b : Backend) (o : Outcome) (h : (b, o) ∈ sync pureUpdater kws glob (reorder bs ord)) :
+    (star ∈ kws → o.lines = []) ∧
+    (∀ l ∈ o.lines, ∀ k ∈ kws, k ≠ [] → firstToken l ≠ k) ∧
+    (b.anns ≠ [] → oracle kws b.lanns glob o.lines = none) := by
+  have ho := sync_backend_outcome kws glob _ b o h
+  subst ho
+  refine ⟨(emitted_is_clean kws b.lanns glob).1, (emitted_is_clean kws b.lanns glob).2, ?_⟩
+  intro hne
+  apply property_annotation_partial
+  intro he
+  apply hne
+  obtain ⟨id, anns⟩ := b
+  cases anns with
+  | nil => rfl
+  | cons a r => simp [Backend.lanns] at he
+
+/-- the Spec of the sync on the model: the only clause that can fail on any backend is the
+known one about global snippets (`property_global_partial`) -/
+theorem oracle_sync_partial (kws : List Str) (glob : Str) (bs : List Backend) :
+    ∀ c ∈ oracleSync kws glob ((sync pureUpdater kws glob bs).map fun bo => (bo.1, bo.2.lines)),
+      c = "global-source-snippet-filtered" := by
+  intro c hc
+  rw [sync_pure] at hc
+  simp only [oracleSync, List.map_map, List.mem_filterMap, List.mem_map, Function.comp] at hc
+  obtain ⟨bo, ⟨b, _, rfl⟩, hor⟩ := hc
+  simp only at hor
+  obtain ⟨id, anns⟩ := b
+  cases anns with
+  | nil =>
+    rcases property_global_partial kws glob with h | h
+    · simp [Backend.lanns, h] at hor
+    · simp only [Backend.lanns, List.map_nil, h, Option.some.injEq] at hor
+      exact hor.symm
+  | cons a r =>
+    have := property_annotation_partial kws (Backend.lanns ⟨id, a :: r⟩) glob (by simp [Backend.lanns])
+    rw [this] at hor
+    cases hor
+
+/-! ### when is a per-sync memo of the verdict sound? -/
+
+/-- the keyword loop returns what `lookupDisabledKeyword` + the two `if`s of the refactored
+form return -/
+theorem scan_verdict (src : Option String) (lines kws : List Str) :
+    (match scan src lines kws with | some o => o | none => .emitted lines)
+      = ofVerdict src lines (verdict lines kws) := by
+  induction kws with
+  | nil => simp [scan, verdict, ofVerdict, star]
+  | cons k ks ih =>
+    unfold scan verdict
+    by_cases hk : k = []
+    · simp only [hk, if_true]; exact ih
+    · simp only [hk, if_false]
+      by_cases hs : k = star
+      · simp [hs, ofVerdict]
+      · simp only [hs, if_false]
+        by_cases ha : lines.any (fun l => firstToken l == k) = true
+        · simp [ha, ofVerdict, hs, hk]
+        · simp only [ha, Bool.false_eq_true, if_false]; exact ih
+
+theorem customConfig_verdict (kws : List Str) (src : Option String) (v : Str) :
+    customConfig kws ⟨src, v⟩ =
+      if lineToSlice v = [] then .noSnippet else ofVerdict src (lineToSlice v) (verdict (lineToSlice v) kws) := by
+  unfold customConfig
+  simp only
+  split
+  · rfl
+  · exact scan_verdict src (lineToSlice v) kws
+
+/-- within the sync the memo key determines the selected value -/
+def KeyFaithful (key : Option Src → String) (glob : Str) (bs : List Backend) : Prop :=
+  ∀ b ∈ bs, ∀ b' ∈ bs, key b.selSrc = key b'.selSrc → b.selValue glob = b'.selValue glob
+
+/-- every memo entry is the verdict of the selected value of some backend of the sync -/
+def MemoInv (key : Option Src → String) (kws : List Str) (glob : Str) (all : List Backend)
+    (m : List (String × Str)) : Prop :=
+  ∀ k w, m.lookup k = some w →
+    ∃ b ∈ all, key b.selSrc = k ∧ w = verdict (lineToSlice (b.selValue glob)) kws
+
+theorem memoBuild_spec (key : Option Src → String) (kws : List Str) (glob : Str) (all : List Backend)
+    (hf : KeyFaithful key glob all) (m : List (String × Str)) (hm : MemoInv key kws glob all m)
+    (b : Backend) (hb : b ∈ all) :
+    (memoBuild key kws m b.selSrc (b.selValue glob)).1
+        = customConfig kws ⟨b.selSrc.map Src.label, b.selValue glob⟩ ∧
+    MemoInv key kws glob all (memoBuild key kws m b.selSrc (b.selValue glob)).2 := by
+  rw [customConfig_verdict]
+  unfold memoBuild
+  simp only
+  by_cases hl : lineToSlice (b.selValue glob) = []
+  · simp only [hl, if_true]; exact ⟨trivial, hm⟩
+  · simp only [hl, if_false]
+    by_cases hk : kws = []
+    · subst hk
+      simp only [if_true]
+      refine ⟨?_, hm⟩
+      simp [verdict, ofVerdict, star]
+    · simp only [hk, if_false]
+      cases hlk : m.lookup (key b.selSrc) with
+      | some w =>
+        simp only
+        refine ⟨?_, hm⟩
+        obtain ⟨b', hb', hkey, hw⟩ := hm _ _ hlk
+        rw [hw, hf b' hb' b hb hkey]
+      | none =>
+        simp only
+        refine ⟨trivial, ?_⟩
+        intro k w hkw
+        rw [List.lookup_cons] at hkw
+        by_cases he : (k == key b.selSrc) = true
+        · rw [he] at hkw
+          cases hkw
+          exact ⟨b, hb, (by simpa using he : k = key b.selSrc).symm, rfl⟩
+        · have he' : (k == key b.selSrc) = false := by simpa using he
+          rw [he'] at hkw
+          exact hm k w hkw
+
+theorem runSync_memo (key : Option Src → String) (kws : List Str) (glob : Str) (all : List Backend)
+    (hf : KeyFaithful key glob all) :
+    ∀ (bs : List Backend) (m : List (String × Str)), (∀ b ∈ bs, b ∈ all) → MemoInv key kws glob all m →
+      runSync (memoUpdater key) kws glob m bs = bs.map fun b => (b, run kws b.lanns glob) := by
+  intro bs
+  induction bs with
+  | nil => intros; rfl
+  | cons b bs ih =>
+    intro m hsub hm
+    have hb : b ∈ all := hsub b List.mem_cons_self
+    obtain ⟨h1, h2⟩ := memoBuild_spec key kws glob all hf m hm b hb
+    simp only [runSync, List.map_cons, show (memoUpdater key).build = memoBuild key from rfl]
+    rw [h1, selCfg_eq, ih _ (fun x hx => hsub x (List.mem_cons_of_mem _ hx)) h2]
+    rfl
+
+/-- **memo_sound**: a per-sync memo of the verdict is harmless exactly under the condition
+the seeded change took for granted: within the sync, equal keys mean equal selected values.
+Then every backend still gets its single-backend outcome, in any processing order.
+`Source.FullName()` does not satisfy it (`seeded_memo_leaks`): an Ingress and a Service may
+share namespace/name. -/
+theorem memo_sound (key : Option Src → String) (kws : List Str) (glob : Str) (bs : List Backend)
+    (ord : List Nat) (hf : KeyFaithful key glob (reorder bs ord)) :
+    sync (memoUpdater key) kws glob (reorder bs ord) = sync pureUpdater kws glob (reorder bs ord) := by
+  rw [sync_pure]
+  exact runSync_memo key kws glob _ hf _ [] (fun _ h => h) (fun _ _ h => by simp at h)
+
+/-! ### the memoising variant (seeded defect C19e) is expressible and leaks -/
+
+def wIngApp : Src := { type := .ingress, ns := "default", name := "app" }
+def wSvcApp : Src := { type := .service, ns := "default", name := "app" }
+/-- `server` -/
+def wServer : Str := [115, 101, 114, 118, 101, 114]
+/-- backend `default_web_8080`: Ingress default/app carries the allowed snippet `x 1` -/
+def wWeb : Backend := { id := "default_web_8080", anns := [(wIngApp, [120, 32, 49])] }
+/-- backend `default_app_8080`: Service default/app carries ` server e` -/
+def wApp : Backend := { id := "default_app_8080", anns := [(wSvcApp, 32 :: wServer ++ [32, 101])] }
+
+/-- **seeded_memo_leaks**: with the verdict memoised under `Source.FullName()` the 2-backend
+sync (Ingress default/app: allowed snippet; Service default/app: a `server` line;
+`--disable-config-keywords=server`) emits the `server` line when the ingress' backend is
+updated first, and drops the allowed snippet in the other order; the code as it is does
+neither, and a memo keyed by the full source does not either. -/
+theorem seeded_memo_leaks :
+    (sync (memoUpdater keyFullName) [wServer] [] [wWeb, wApp]).map (·.2.lines)
+      = [[[120, 32, 49]], [32 :: wServer ++ [32, 101]]] ∧
+    oracleSync [wServer] [] ((sync (memoUpdater keyFullName) [wServer] [] [wWeb, wApp]).map fun bo => (bo.1, bo.2.lines))
+      = ["annotation-keyword-leaked"] ∧
+    oracleSync [wServer] [] ((sync (memoUpdater keyFullName) [wServer] [] (reorder [wWeb, wApp] [1, 0])).map fun bo => (bo.1, bo.2.lines))
+      = ["clean-snippet-dropped"] ∧
+    oracleSync [wServer] [] ((sync pureUpdater [wServer] [] [wWeb, wApp]).map fun bo => (bo.1, bo.2.lines)) = [] ∧
+    oracleSync [wServer] [] ((sync (memoUpdater keyLabel) [wServer] [] [wWeb, wApp]).map fun bo => (bo.1, bo.2.lines)) = [] := by
+  decide
+
+/-- hence the hypothesis of `runSync_stateless` fails for the seeded variant: its outcome
+depends on the carried state -/
+theorem seeded_memo_stateful :
+    ¬ ∀ s src v, ((memoUpdater keyFullName).build [wServer] s src v).1
+        = customConfig [wServer] ⟨src.map Src.label, v⟩ := by
+  intro h
+  exact absurd (h [("default/app", [])] (some wSvcApp) (32 :: wServer ++ [32, 101])) (by decide)
+
+-- the witness sync is not key-faithful for `Source.FullName()`, it is for the full source
+example : ¬ KeyFaithful keyFullName [] [wWeb, wApp] := by
+  intro h
+  exact absurd (h wWeb (by simp) wApp (by simp) (by decide)) (by decide)
+example : KeyFaithful keyLabel [] [wWeb, wApp] := by
+  intro b hb b' hb' hk
+  simp only [List.mem_cons, List.not_mem_nil, or_false] at hb hb'
+  rcases hb with rfl | rfl <;> rcases hb' with rfl | rfl <;> first | rfl | exact absurd hk (by decide)
+
+-- non-vacuity: a sync of two backends in both orders; the dirty one is dropped, the clean one kept
+example : (sync pureUpdater [wServer] [] (reorder [wWeb, wApp] [1, 0])).map (·.2)
+    = [.skipKw (some "S/default/app") wServer, .emitted [[120, 32, 49]]] := by decide
+example : (sync pureUpdater [wServer] [] (reorder [wWeb, wApp] [0, 1])).map (·.2)
+    = [.emitted [[120, 32, 49]], .skipKw (some "S/default/app") wServer] := by decide
+example : (reorder [wWeb, wApp] [1, 0]).Perm [wWeb, wApp] := by decide
+-- the registration model: the cluster of the witness gives these two backends
+example : Cluster.backends
+    { svcs := [{ ns := "default", name := "web", ann := none },
+               { ns := "default", name := "app", ann := some (32 :: wServer ++ [32, 101]) }],
+      ings := [{ ns := "default", name := "app", ann := some [120, 32, 49], params := none, svcs := ["web"] },
+               { ns := "default", name := "other", ann := none, params := none, svcs := ["app"] }] }
+    = [wWeb, wApp] := by decide
+
 /-! ## constants regenerated from the Go source -/
 
 /-- the `asciiSpace` table, the loop conditions of `firstToken`, the shape of
-`buildBackendCustomConfig` and of `LineToSlice` are the ones the model was written from -/
+`buildBackendCustomConfig` (incl. what it reads of the per-sync updater) and of `LineToSlice`
+are the ones the model was written from -/
 theorem facts_c19 :
     Facts.c19AsciiSpaceLen = 256 ∧
     Facts.c19AsciiSpaceKeys.zip Facts.c19AsciiSpaceVals = spaceTable ∧
@@ -434,6 +706,9 @@ theorem facts_c19 :
     Facts.c19CustomConfigAssigns = ["d.backend.CustomConfig = lines"] ∧
     Facts.c19CustomConfigReturns = 3 ∧
     Facts.c19CustomConfigInput = ["ingtypes.BackConfigBackend", "config.Value"] ∧
+    -- of the updater (shared by all the backends of a sync) only the keyword list and the logger are used:
+    -- the current code is `pureUpdater`
+    Facts.c19CustomConfigReceiverUses = ["c.logger.Warn", "c.options.DisableKeywords"] ∧
     Facts.c19LineToSliceConds = ["s == \"\""] ∧
     Facts.c19LineToSliceReturns = ["nil", "strings.Split(strings.TrimRight(s, \"\\n\"), \"\\n\")"] := by
   decide
